@@ -190,13 +190,49 @@ class Folder(object):
                 except Exception as e:
                     env[v.func.value.id] = FoldErrorValue(
                         "mutated by unfoldable call: %s" % e)
+        elif isinstance(stmt, ast.Delete):
+            for t in stmt.targets:
+                if isinstance(t, ast.Name):
+                    env.pop(t.id, None)
+                else:
+                    self._spoil(t, env)
+        elif isinstance(stmt, ast.For) and not stmt.orelse and not any(
+                isinstance(n, (ast.Break, ast.Continue, ast.Return))
+                for n in ast.walk(stmt)):
+            # a table filled by a loop over folded values: unrolled
+            try:
+                seq = list(self.eval(stmt.iter, env, mod))
+                if len(seq) > 4096:
+                    raise FoldError("long module-level loop")
+            except (FoldError, TypeError):
+                self._spoil(stmt, env)
+                return
+            for v in seq:
+                self._store(stmt.target, v, env, mod)
+                for s in stmt.body:
+                    self._top(s, env, mod)
         elif isinstance(stmt, (ast.If, ast.Try, ast.For, ast.While,
                                ast.With)):
             # control flow at module level: names assigned inside do not fold
-            for n in ast.walk(stmt):
-                if isinstance(n, ast.Name) and isinstance(n.ctx, ast.Store):
-                    env[n.id] = FoldErrorValue("assigned under module-level "
-                                               "control flow")
+            self._spoil(stmt, env)
+
+    def _spoil(self, stmt, env):
+        """Names assigned, and containers stored into or called on, under
+        ``stmt`` do not fold."""
+        why = "assigned under module-level control flow"
+        for n in ast.walk(stmt):
+            if isinstance(n, ast.Name) and isinstance(n.ctx, (ast.Store,
+                                                               ast.Del)):
+                env[n.id] = FoldErrorValue(why)
+            elif isinstance(n, ast.Subscript) and isinstance(
+                    n.ctx, (ast.Store, ast.Del)) and \
+                    isinstance(n.value, ast.Name):
+                env[n.value.id] = FoldErrorValue(why)
+            elif isinstance(n, ast.Call) and isinstance(
+                    n.func, ast.Attribute) and \
+                    isinstance(n.func.value, ast.Name) and \
+                    isinstance(env.get(n.func.value.id), (dict, list, set)):
+                env[n.func.value.id] = FoldErrorValue(why)
 
     def _store(self, target, val, env, mod):
         if isinstance(target, ast.Name):
